@@ -371,7 +371,7 @@ theorem addChar_marks (b b' : WB) (m : WS) (mt wt : Tag) (cur cur' : Bool) (c : 
     (h : b.addChar m mt wt cur c = .ok (b', cur')) : b'.marks = b.marks ∧ b'.LineOk := by
   unfold WB.addChar at h
   simp only at h
-  generalize hr : (if (c.ws && decide (b.wordlen > 0)) = true then b.flushWord m else Except.ok b) = r at h
+  generalize hr : (if (c.ws && !b.word.noContent) = true then b.flushWord m else Except.ok b) = r at h
   cases r with
   | error e => simp at h
   | ok b1 =>
